@@ -41,17 +41,21 @@ func (c confSpec) String() string {
 }
 
 func quickConfigs() []confSpec {
+	// every protocol appears among the first five configurations (a broken library should
+	// be found before the whole matrix has run)
 	return []confSpec{
 		{"raw", "bytes", ""},
+		{"ws", "json", "m"},
+		{"json", "bytes", ""},
+		{"wspb", "bytes", ""},
+		{"pb", "plain", ""},
 		{"raw", "plain", "g"},
 		{"raw", "json", "m"},
 		{"raw", "bytes", "gm"},
 		{"raw", "json", "gm"},
-		{"json", "bytes", ""},
 		{"json", "plain", "m"},
 		{"json", "json", "g"},
 		{"json", "bytes", "gm"},
-		{"pb", "plain", ""},
 		{"pb", "json", "m"},
 		{"pb", "bytes", "g"},
 	}
@@ -59,7 +63,7 @@ func quickConfigs() []confSpec {
 
 func allConfigs() []confSpec {
 	var out []confSpec
-	for _, pr := range []string{"raw", "json", "pb"} {
+	for _, pr := range []string{"raw", "json", "pb", "ws", "wspb"} {
 		for _, b := range []string{"bytes", "plain", "json"} {
 			for _, p := range []string{"", "g", "m", "gm"} {
 				out = append(out, confSpec{pr, b, p})
@@ -88,7 +92,7 @@ func main() {
 	socket.SetMessageSizeLimit(sizeLimit)
 	gz := RegTestFilters()
 	st := NewStats("C01", cfg)
-	st.Rule = "live sessions: 2 connection pairs per configuration served by one server peer and one client peer; G goroutines per session side (8 quick / 16 thorough, i.e. 32 / 64 per configuration) x -n operations each (call / async call / push, both directions) over protocol {raw,json,pb} x body {bytes,plain,json} x pipe {none,g,m,gm}; every region (args, each meta value, result, reply meta) is a function of the operation's tag, lengths 0,1..36,~300,3000..6000; epochs end at quiescence, every 4th epoch runs with half-written frames stalled on each conn, every 4th with handlers parked at call.prereply / handle.enter and released newest first. distinct = (configuration, tag); non-trivial = non-empty args"
+	st.Rule = "live sessions: 2 connection pairs per configuration served by one server peer and one client peer; G goroutines per session side (8 quick / 16 thorough, i.e. 32 / 64 per configuration) x -n operations each (call / async call / push, both directions) over protocol {raw,json,pb,websocket mixer with json / protobuf sub-protocol} x body {bytes,plain,json} x pipe {none,g,m,gm}; every region (args, each meta value, result, reply meta) is a function of the operation's tag, lengths 0,1..36,~300,3000..6000; epochs end at quiescence, every 4th epoch runs with half-written frames stalled on each conn, every 4th with handlers parked at call.prereply / handle.enter and released newest first. distinct = (configuration, tag); non-trivial = non-empty args"
 	w := NewCaseWriter(cfg)
 
 	specs := quickConfigs()
